@@ -595,6 +595,16 @@ fn edit_docs() -> Vec<(&'static str, MetadataWrapper)> {
         ("layout", MetadataWrapper::Layout(world::layout(vec![s0, s1], vec![Inspection::new("i").run(vec!["true".to_string()].into())], &[a, b, r], world::far_future()))),
         ("link", c11::link_with("name", "step")),
     ]
+    .into_iter()
+    .chain(world::sample_links("step").into_iter().map(|(n, l)| {
+        let name = match n {
+            "rich" => "link/rich",
+            "bare: no environment, no byproducts, no command" => "link/bare",
+            _ => "link/failed-command-empty-environment",
+        };
+        (name, MetadataWrapper::Link(l))
+    }))
+    .collect()
 }
 
 pub fn run(tier: Tier) -> i32 {
@@ -675,7 +685,14 @@ pub fn run(tier: Tier) -> i32 {
                 acc.violation("baseline-does-not-verify", "an untouched signed block does not verify", || json!({"kind": "edit", "doc": dname, "signers": sname, "edit": "none"}));
                 continue;
             }
-            let edits = if dname == "layout" { layout_edits(&bv["signed"]) } else { link_edits(&bv["signed"]) };
+            let mut edits = if dname == "layout" { layout_edits(&bv["signed"]) } else if dname == "link" { link_edits(&bv["signed"]) } else { vec![] };
+            // the generic leaf edits: every leaf x (strings re-spelled, integers wrapped, null <-> empty, member removed)
+            for e in crate::tamper::edits(&bv["signed"]) {
+                let mut edited = bv["signed"].clone();
+                if crate::tamper::apply(&mut edited, &e) {
+                    edits.push((format!("leaf:{e}"), edited));
+                }
+            }
             for (ename, edited) in edits {
                 acc.evaluations += 2;
                 let mut ev = bv.clone();
@@ -696,7 +713,7 @@ pub fn run(tier: Tier) -> i32 {
                             Guard::Done(Err(_)) => acc.outcome("edit-invalidates-signature"),
                             Guard::Done(Ok(_)) => {
                                 acc.outcome("edit-still-verifies");
-                                let class = ename.split(|c: char| c.is_ascii_digit()).next().unwrap_or("").trim_end_matches(['[', '.', ':', '-']).to_string();
+                                let class = ename.split('@').next().unwrap_or("").split(|c: char| c.is_ascii_digit()).next().unwrap_or("").trim_end_matches(['[', '.', ':', '-']).to_string();
                                 acc.violation(&format!("edit-not-detected:{dname}:{class}"), &format!("{dname} edited after signing ({ename}) still verifies with the old signatures"), witness);
                             }
                             Guard::Panicked(l, m) => acc.violation(&format!("panic:{l}"), &format!("verify panicked: {m}"), witness),
@@ -715,7 +732,7 @@ pub fn run(tier: Tier) -> i32 {
     let _ = KeyId::from_str;
     crate::envprobe::judge(&mut acc, "C05:", &mut c.extra);
     c.acc = acc;
-    c.rule = "(a) metadata values from the field alphabets (every string field x critical and wide strings, splits of one string across adjacent fields, structural near-collisions, thresholds x pubkey lists x key tables, expiry seconds, every rule form in every position, repeated steps / inspections / key ids / rules / arguments, digests of 8 lengths and with single-byte differences in one- and two-algorithm maps, key-table entries over one key material with 5 hash-algorithm lists / 2 schemes, strings of 15..1025 (70001) characters) signed with one Ed25519 key: unequal values must give different signatures; canonical encodings of the C10 value grammar pairwise distinct; (b) every single-field edit (incl. every digest byte and every rule token) of a signed layout and a signed link, for 5 signer sets, must fail verification and pass again when undone. distinct_nontrivial = distinct signed byte strings + distinct canonical encodings + edits that change the parsed value".into();
+    c.rule = "(a) metadata values from the field alphabets (every string field x critical and wide strings, splits of one string across adjacent fields, structural near-collisions, thresholds x pubkey lists x key tables, expiry seconds, every rule form in every position, repeated steps / inspections / key ids / rules / arguments, digests of 8 lengths and with single-byte differences in one- and two-algorithm maps, key-table entries over one key material with 5 hash-algorithm lists / 2 schemes, strings of 15..1025 (70001) characters) signed with one Ed25519 key: unequal values must give different signatures; canonical encodings of the C10 value grammar pairwise distinct; (b) every single-field edit (incl. every digest byte and every rule token, and for every leaf: strings re-spelled in 12 ways, integers +-1 / negated / +2^8..+2^63 / -2^32, null <-> empty, member removed) of a signed layout and four signed links, for 5 signer sets, must fail verification and pass again when undone. distinct_nontrivial = distinct signed byte strings + distinct canonical encodings + edits that change the parsed value".into();
     c.bound_completed = format!("critical strings <= {}, wide strings <= {}, split words <= {}", if tier.thorough() { 4 } else { 3 }, if tier.thorough() { 2 } else { 1 }, if tier.thorough() { 4 } else { 3 });
     c.assume("Ed25519 signing by a fixed key is deterministic and collision-free on distinct messages, so equal signatures <=> equal signed bytes");
     c.assume("unequal = PartialEq on the parsed metadata (expiry enumerated at whole seconds)");
